@@ -1,14 +1,14 @@
 CONSTANTS
   Variant = "fixed"
   XVariant = "fixed"
-  RuleIds = {3, 4, 8, 10, 13, 16, 17, 18, 19, 32, 35}
+  RuleIds = {3, 4, 8, 10, 13, 16, 18, 19, 35}
   K = 2
   Toks <- TokQ
   MaxParts = 2
   Methods = {"GET", "POST"}
   Binds = {5}
   WsKinds = {FALSE, TRUE}
-  ExportEvery = 41
+  ExportEvery = 29
 INIT Init
 NEXT Next
 INVARIANT ExportCase
